@@ -42,7 +42,9 @@ const (
 	repo = "proj/tags"
 )
 
-var tags = []string{"a", "b", "c"}
+// the three tag names are related on purpose: tags[0] is a proper suffix of tags[1], tags[1] a proper
+// prefix of tags[2] (a name->digest map compares whole names)
+var tags = []string{"1", "v1", "v1.0"}
 
 // pool of manifests: two OCI images and one Docker image, plus a sha512 variant
 var pool = func() []*graphs.Graph {
@@ -306,29 +308,29 @@ func (w *World) foreign(t *testing.T, kind string) {
 	switch kind {
 	case "dup": // the same tag listed twice, adjacent, pointing at the same manifest
 		put(pool[0])
-		ents = []ent{e(pool[0], "a", true), e(pool[0], "a", true)}
-		w.model.Tags["a"] = pool[0].Top
+		ents = []ent{e(pool[0], tags[0], true), e(pool[0], tags[0], true)}
+		w.model.Tags[tags[0]] = pool[0].Top
 	case "dup-moved": // the tag listed twice, the later entry is the current one
 		put(pool[0])
 		put(pool[1])
-		ents = []ent{e(pool[0], "a", true), e(pool[1], "a", true)}
+		ents = []ent{e(pool[0], tags[0], true), e(pool[1], tags[0], true)}
 		// the image-layout spec does not say which of two entries with one name is current; the
 		// client consistently takes the first, and so does the reference
-		w.model.Tags["a"] = pool[0].Top
+		w.model.Tags[tags[0]] = pool[0].Top
 	case "untagged": // an untagged entry next to a tagged one
 		put(pool[0])
 		put(pool[1])
-		ents = []ent{e(pool[0], "", true), e(pool[1], "b", true)}
-		w.model.Tags["b"] = pool[1].Top
+		ents = []ent{e(pool[0], "", true), e(pool[1], tags[1], true)}
+		w.model.Tags[tags[1]] = pool[1].Top
 	case "fullname": // ref.name holds a full image name as containerd writes it
 		put(pool[0])
-		ents = []ent{e(pool[0], "registry.example/proj/img:a", true)}
-		w.model.Tags["a"] = pool[0].Top
+		ents = []ent{e(pool[0], "registry.example/proj/img:"+tags[0], true)}
+		w.model.Tags[tags[0]] = pool[0].Top
 		w.foreignNote = "fullname"
 	case "nomediatype": // entry without media type
 		put(pool[0])
-		ents = []ent{e(pool[0], "a", false)}
-		w.model.Tags["a"] = pool[0].Top
+		ents = []ent{e(pool[0], tags[0], false)}
+		w.model.Tags[tags[0]] = pool[0].Top
 	}
 	b, _ := json.Marshal(map[string]any{"schemaVersion": 2, "manifests": ents})
 	if err := os.WriteFile(filepath.Join(w.dir, "index.json"), b, 0o644); err != nil {
@@ -444,7 +446,7 @@ func (w *World) observe(ctx context.Context) (string, string) {
 			if last != "" {
 				o = append(o, scheme.WithTagLast(last))
 			}
-			tl, err := w.rc.TagList(ctx, w.rtag("a"), o...)
+			tl, err := w.rc.TagList(ctx, w.rtag(tags[0]), o...)
 			if err != nil {
 				if len(m.Tags) == 0 && len(m.Set) == 0 {
 					break
@@ -462,7 +464,7 @@ func (w *World) observe(ctx context.Context) (string, string) {
 			last = ts[len(ts)-1]
 		}
 	} else {
-		tl, err := w.rc.TagList(ctx, w.rtag("a"))
+		tl, err := w.rc.TagList(ctx, w.rtag(tags[0]))
 		if err != nil {
 			if !(len(m.Tags) == 0) {
 				return "taglist-error", fmt.Sprintf("TagList failed: %v (model %s)", err, m)
